@@ -1,6 +1,11 @@
 mod connection;
 mod request;
 
+#[cfg(aquatic_verif)]
+pub mod verif_request {
+    pub use super::request::{parse_request, RequestParseError};
+}
+
 use std::cell::RefCell;
 use std::net::SocketAddr;
 use std::os::unix::prelude::{FromRawFd, IntoRawFd};
@@ -42,6 +47,15 @@ pub async fn run_socket_worker(
     server_start_instant: ServerStartInstant,
     worker_index: usize,
 ) -> anyhow::Result<()> {
+    #[cfg(aquatic_verif)]
+    match aquatic_common::verif::probe("http.socket.start") {
+        aquatic_common::verif::ACTION_RETURN_OK => return Ok(()),
+        aquatic_common::verif::ACTION_RETURN_ERR => {
+            return Err(anyhow::anyhow!("verif: injected socket worker error"))
+        }
+        _ => (),
+    }
+
     let config = Rc::new(config);
 
     let tcp_listeners = {
@@ -132,6 +146,13 @@ impl ListenerState {
         let mut incoming = listener.incoming();
 
         while let Some(stream) = incoming.next().await {
+            #[cfg(aquatic_verif)]
+            if aquatic_common::verif::probe("http.socket.accept")
+                != aquatic_common::verif::ACTION_CONTINUE
+            {
+                return;
+            }
+
             match stream {
                 Ok(stream) => {
                     let opt_valid_until = ValidUntil::new(
@@ -192,6 +213,9 @@ impl ListenerState {
 
         #[cfg(feature = "metrics")]
         active_connections_gauge.increment(1.0);
+
+        #[cfg(aquatic_verif)]
+        aquatic_common::verif::probe("http.socket.connection");
 
         let f1 = async {
             run_connection(
